@@ -212,7 +212,7 @@ def natDigits (n : Nat) : Bytes := natDigitsAux (n + 1) n []
 
 def ceilDiv (a b : Nat) : Nat := if b == 0 then 0 else (a + b - 1) / b
 
-/-- inputs of `jobScript`, resources as whole numbers -/
+/-- inputs of `jobScript` -/
 structure JobIn where
   tmpl : Bytes
   fqname : Bytes
@@ -224,9 +224,9 @@ structure JobIn where
   envs : List (Bytes × Bytes)
   cmd : Bytes
   argv : List Bytes
-  threads : Nat       -- request; 0 = default
-  memGB : Nat         -- request; 0 = default
-  vmemGB : Nat        -- request; 0 = mem + extra
+  threads : Float     -- request (float64, as in JobResources); 0 = default, negative = its absolute value
+  memGB : Float       -- request; 0 = default, negative = its absolute value
+  vmemGB : Float      -- request; < 1 = mem + extra
   threadsPerJob : Nat
   memGBPerJob : Nat
   extraVmemGB : Nat
@@ -240,18 +240,48 @@ structure JobIn where
 def threadsKey : Bytes :=   -- `__MRO_THREADS__`
   [0x5F, 0x5F, 0x4D, 0x52, 0x4F, 0x5F, 0x54, 0x48, 0x52, 0x45, 0x41, 0x44, 0x53, 0x5F, 0x5F]
 
-/-- `GetSystemReqs` followed by the arithmetic at the head
-of `jobScript`: (threads, memGB, vmemGB, memGBPerThread, vmemGBPerThread) -/
-def resources (j : JobIn) : Nat × Nat × Nat × Nat × Nat :=
-  let t0 := if j.threads == 0 then j.threadsPerJob else j.threads
-  let m := if j.memGB == 0 then j.memGBPerJob else j.memGB
-  let v := if j.vmemGB < 1 then m + j.extraVmemGB else j.vmemGB
-  let t1 := if j.memGBPerCore > 0 && m > t0 * j.memGBPerCore then ceilDiv m j.memGBPerCore else t0
+/-- the numbers `jobScript` substitutes -/
+structure Res where
+  threads : Nat
+  memGB : Nat
+  memMB : Nat
+  memKB : Nat
+  memB : Nat
+  vmemGB : Nat
+  vmemMB : Nat
+  vmemKB : Nat
+  vmemB : Nat
+  memPerThread : Nat
+  vmemPerThread : Nat
+
+/-- Go's `int(math.Ceil(x))` for `0 ≤ x < 2^63` -/
+def ceilNat (x : Float) : Nat := (Float.ceil x).toUInt64.toNat
+
+/-- `GetSystemReqs` followed by the arithmetic at the head of `jobScript`, in float64 as the
+code does it (Lean's `Float` is the same IEEE double) -/
+def resources (j : JobIn) : Res :=
+  let thr0 : Float :=
+    if j.threads == 0 then j.threadsPerJob.toFloat else if j.threads < 0 then -j.threads else j.threads
+  let m0 : Float := if j.memGB < 0 then -j.memGB else j.memGB
+  let m1 : Float := if m0 == 0 then j.memGBPerJob.toFloat else m0
+  let v : Float := if j.vmemGB < 1 then m1 + j.extraVmemGB.toFloat else j.vmemGB
+  let thr1 : Float :=
+    if j.memGBPerCore > 0 then
+      (let tfm := m1 / j.memGBPerCore.toFloat
+       if tfm > thr0 then tfm else thr0)
+    else thr0
   -- verifyJobManager: threading is enabled iff the template mentions __MRO_THREADS__
-  let t := if containsB j.tmpl threadsKey then t1 else 1
-  let vpt := max j.memGBPerCore (ceilDiv v t)
-  if j.alwaysVmem && v > m then (t, v, v, vpt, vpt)
-  else (t, m, v, max j.memGBPerCore (ceilDiv m t), vpt)
+  let thr : Float := if containsB j.tmpl threadsKey then Float.ceil thr1 else 1
+  let vpt := max j.memGBPerCore (ceilNat (v / thr))
+  let useV := j.alwaysVmem && v > m1
+  let m : Float := if useV then v else m1
+  let mpt := if useV then vpt else max j.memGBPerCore (ceilNat (m1 / thr))
+  { threads := ceilNat thr,
+    memGB := ceilNat m, memMB := ceilNat (m * 1024), memKB := ceilNat (m * 1024 * 1024),
+    memB := ceilNat (m * 1024 * 1024 * 1024),
+    vmemGB := ceilNat v, vmemMB := ceilNat (v * 1024), vmemKB := ceilNat (v * 1024 * 1024),
+    vmemB := ceilNat (v * 1024 * 1024 * 1024),
+    memPerThread := mpt, vmemPerThread := vpt }
 
 /-- `threadEnvs`: every thread variable gets the thread count, the job's own
 environment overrides it (a Go map: keys distinct) -/
@@ -272,38 +302,36 @@ inductive Kind | raw | int | quoted | cmd
 def Kind.name : Kind → String
   | .raw => "raw" | .int => "int" | .quoted => "quoted" | .cmd => "cmd"
 
-def bytesOf (s : String) : Bytes := s.toUTF8.toList
+/-- bytes of an ASCII string (parameter names are ASCII constants of the source); written
+with `toList` so that the kernel can evaluate it -/
+def bytesOf (s : String) : Bytes := s.toList.map fun c => c.toNat.toUInt8
 
 /-- the parameter table of `jobScript`, in source order: name, kind, value -/
 def params (tbl : EscTable) (j : JobIn) : List (String × Kind × Bytes) :=
-  let t := (resources j).1
-  let m := (resources j).2.1
-  let v := (resources j).2.2.1
-  let mpt := (resources j).2.2.2.1
-  let vpt := (resources j).2.2.2.2
+  let r := resources j
   let n (x : Nat) := natDigits x
   [ ("JOB_NAME", .raw, j.fqname ++ [0x2E] ++ j.shellName),
-    ("THREADS", .int, n t),
+    ("THREADS", .int, n r.threads),
     ("STDOUT", .quoted, quote tbl j.stdout),
     ("STDERR", .quoted, quote tbl j.stderr),
     ("JOB_WORKDIR", .quoted, quote tbl j.workdir),
-    ("CMD", .cmd, formatArgs tbl (mergeEnvs j.threadEnvs (n t) j.envs) j.cmd j.argv),
-    ("MEM_GB", .int, n m),
-    ("MEM_MB", .int, n (m * 1024)),
-    ("MEM_KB", .int, n (m * 1024 * 1024)),
-    ("MEM_B", .int, n (m * 1024 * 1024 * 1024)),
-    ("MEM_GB_PER_THREAD", .int, n mpt),
-    ("MEM_MB_PER_THREAD", .int, n (mpt * 1024)),
-    ("MEM_KB_PER_THREAD", .int, n (mpt * 1024 * 1024)),
-    ("MEM_B_PER_THREAD", .int, n (mpt * 1024 * 1024 * 1024)),
-    ("VMEM_GB", .int, n v),
-    ("VMEM_MB", .int, n (v * 1024)),
-    ("VMEM_KB", .int, n (v * 1024 * 1024)),
-    ("VMEM_B", .int, n (v * 1024 * 1024 * 1024)),
-    ("VMEM_GB_PER_THREAD", .int, n vpt),
-    ("VMEM_MB_PER_THREAD", .int, n (vpt * 1024)),
-    ("VMEM_KB_PER_THREAD", .int, n (vpt * 1024 * 1024)),
-    ("VMEM_B_PER_THREAD", .int, n (vpt * 1024 * 1024 * 1024)),
+    ("CMD", .cmd, formatArgs tbl (mergeEnvs j.threadEnvs (n r.threads) j.envs) j.cmd j.argv),
+    ("MEM_GB", .int, n r.memGB),
+    ("MEM_MB", .int, n r.memMB),
+    ("MEM_KB", .int, n r.memKB),
+    ("MEM_B", .int, n r.memB),
+    ("MEM_GB_PER_THREAD", .int, n r.memPerThread),
+    ("MEM_MB_PER_THREAD", .int, n (r.memPerThread * 1024)),
+    ("MEM_KB_PER_THREAD", .int, n (r.memPerThread * 1024 * 1024)),
+    ("MEM_B_PER_THREAD", .int, n (r.memPerThread * 1024 * 1024 * 1024)),
+    ("VMEM_GB", .int, n r.vmemGB),
+    ("VMEM_MB", .int, n r.vmemMB),
+    ("VMEM_KB", .int, n r.vmemKB),
+    ("VMEM_B", .int, n r.vmemB),
+    ("VMEM_GB_PER_THREAD", .int, n r.vmemPerThread),
+    ("VMEM_MB_PER_THREAD", .int, n (r.vmemPerThread * 1024)),
+    ("VMEM_KB_PER_THREAD", .int, n (r.vmemPerThread * 1024 * 1024)),
+    ("VMEM_B_PER_THREAD", .int, n (r.vmemPerThread * 1024 * 1024 * 1024)),
     ("ACCOUNT", .raw, j.account),
     ("RESOURCES", .raw, mappedResources j) ]
 
@@ -317,12 +345,13 @@ def paramSpec : List (String × String) :=
 
 def varKey (name : String) : Bytes := bytesOf ("__MRO_" ++ name ++ "__")
 
-/-- the old/new argument list handed to `strings.NewReplacer` -/
+/-- the old/new argument list handed to `strings.NewReplacer` (Go guards the line loop with
+`strings.Contains(template, rkey)`; when no line holds the key the loop adds nothing, so the
+guard is not modelled) -/
 def replArgs (tmpl : Bytes) (ps : List (Bytes × Bytes)) : List (Bytes × Bytes) :=
-  ps.flatMap fun (k, v) =>
-    if !v.isEmpty then [(k, v)]
-    else if containsB tmpl k then ((splitNl tmpl).filter fun l => containsB l k).map fun l => (l, [])
-    else []
+  ps.flatMap fun kv =>
+    if !kv.2.isEmpty then [(kv.1, kv.2)]
+    else ((splitNl tmpl).filter fun l => containsB l kv.1).map fun l => (l, [])
 
 def jobScript (tbl : EscTable) (j : JobIn) : Bytes :=
   replaceGo (replArgs j.tmpl ((params tbl j).map fun p => (varKey p.1, p.2.2))) 0 j.tmpl
@@ -434,7 +463,128 @@ def expectedToks (g : Given) (ls : List SegLine) : List Tok :=
   joinToks (ls.map fun l => lineToks g (shapeOf l))
 
 def givenOf (tbl : EscTable) (j : JobIn) : Given :=
-  { envs := sortEnvs tbl (mergeEnvs j.threadEnvs (natDigits (resources j).1) j.envs),
+  { envs := sortEnvs tbl (mergeEnvs j.threadEnvs (natDigits (resources j).threads) j.envs),
     cmd := j.cmd, argv := j.argv, stdout := j.stdout, stderr := j.stderr, workdir := j.workdir }
+
+/-! ## Well-formed segmentation: when `renderScript` IS the replacer
+
+`wfTemplate names maybeEmpty ls`: a decidable check on a template cut into lines and segments
+under which, for ALL values (only the parameters in `maybeEmpty` may be empty), Go's replacer
+on the template text gives exactly `renderScript` (theorem `replace_eq_render`).  At every
+position of the text that the replacer can examine:
+* inside literal text no parameter key starts, and no removable line text starts;
+* at a variable exactly that parameter's key starts (no other key is a prefix there);
+* a removable line text (the text of a line holding a `maybeEmpty` variable) starts only at the
+  start of a line with exactly that text;
+* a line holding a `maybeEmpty` variable starts with literal text or is that variable alone;
+* a line contains the key of a `maybeEmpty` parameter textually iff it has that variable. -/
+
+/-- key table: parameter name ↦ key bytes (`__MRO_name__`), in parameter order -/
+abbrev Keys := List (String × Bytes)
+
+def keyOf (keys : Keys) (n : String) : Bytes :=
+  match keys.find? fun nk => nk.1 == n with
+  | some nk => nk.2
+  | none => []
+
+def segTextK (keys : Keys) (l : SegLine) : Bytes :=
+  (l.map fun s => if segIsVar s then keyOf keys s.1 else s.2).flatten
+
+def templateTextK (keys : Keys) (ls : List SegLine) : Bytes := joinNl (ls.map (segTextK keys))
+
+def keysAt (keys : Keys) (s : Bytes) : List String :=
+  (keys.filter fun nk => nk.2.isPrefixOf s).map (·.1)
+
+def noLineAt (R : List Bytes) (s : Bytes) : Bool := R.all fun L => !L.isPrefixOf s
+
+def heads (xs : List Bytes) : List UInt8 := (xs.filterMap List.head?).eraseDups
+
+/-- a position inside literal text (`first`: the first position of a line, where removable line
+texts are judged by the line check instead).  `kh`, `rh`: the first bytes of the keys and of
+the removable line texts — a key can only start where its first byte stands (this only makes
+the check cheap). -/
+def posOK (keys : Keys) (R : List Bytes) (first : Bool) (s : Bytes) : Bool :=
+  match s with
+  | [] => true
+  | b :: _ =>
+    (!(heads (keys.map (·.2))).contains b || (keysAt keys s).isEmpty)
+      && (first || !(heads R).contains b || noLineAt R s)
+
+def wfLit (keys : Keys) (R : List Bytes) : Bool → Bytes → Bytes → Bool
+  | _, [], _ => true
+  | first, b :: l, k => posOK keys R first (b :: l ++ k) && wfLit keys R false l k
+
+def wfSegs (keys : Keys) (R : List Bytes) : Bool → SegLine → Bytes → Bool
+  | _, [], _ => true
+  | first, s :: ss, k =>
+    if segIsVar s then
+      (keysAt keys (keyOf keys s.1 ++ (segTextK keys ss ++ k)) == [s.1])
+        && (first || noLineAt R (keyOf keys s.1 ++ (segTextK keys ss ++ k)))
+        && wfSegs keys R false ss k
+    else
+      wfLit keys R first s.2 (segTextK keys ss ++ k)
+        && wfSegs keys R (first && s.2.isEmpty) ss k
+
+def hasMaybeEmpty (maybeEmpty : List String) (l : SegLine) : Bool :=
+  l.any fun s => segIsVar s && maybeEmpty.contains s.1
+
+def startOK (maybeEmpty : List String) : SegLine → Bool
+  | ("", _ :: _) :: _ => true
+  | [(n, _)] => maybeEmpty.contains n
+  | _ => false
+
+def wfLine (keys : Keys) (maybeEmpty : List String) (R : List Bytes) (l : SegLine) (k : Bytes) : Bool :=
+  (R.all fun L => !L.isPrefixOf (segTextK keys l ++ k) || L == segTextK keys l)
+    && wfSegs keys R true l k
+    && (maybeEmpty.all fun X =>
+          containsB (segTextK keys l) (keyOf keys X) == l.any fun s => s.1 == X)
+    && (!hasMaybeEmpty maybeEmpty l || startOK maybeEmpty l)
+    && !(segTextK keys l).contains 0x0A
+    && l.all fun s => !segIsVar s || keys.any fun nk => nk.1 == s.1
+
+def afterLine (keys : Keys) (rest : List SegLine) : Bytes :=
+  match rest with
+  | [] => []
+  | _ => 0x0A :: templateTextK keys rest
+
+def wfLines (keys : Keys) (maybeEmpty : List String) (R : List Bytes) : List SegLine → Bool
+  | [] => true
+  | l :: rest =>
+    wfLine keys maybeEmpty R l (afterLine keys rest)
+      && (rest.isEmpty || posOK keys R false (afterLine keys rest))
+      && wfLines keys maybeEmpty R rest
+
+def removable (keys : Keys) (maybeEmpty : List String) (ls : List SegLine) : List Bytes :=
+  (ls.filter (hasMaybeEmpty maybeEmpty)).map (segTextK keys)
+
+def wfTemplate (keys : Keys) (maybeEmpty : List String) (ls : List SegLine) : Bool :=
+  !ls.isEmpty
+    && keys.all (fun nk => nk.1 != "" && !nk.2.isEmpty && keyOf keys nk.1 == nk.2)
+    && (removable keys maybeEmpty ls).all (fun L => !L.isEmpty)
+    && wfLines keys maybeEmpty (removable keys maybeEmpty ls) ls
+
+/-! ### cutting a template text into segments (the rule of verif-extract, for arbitrary texts) -/
+
+def flushLit (lit : Bytes) : SegLine := if lit.isEmpty then [] else [("", lit)]
+
+/-- at every position the first key, in table order, that is a prefix of the text starts a
+variable; `skip` = bytes of a key still to be passed over -/
+def segLineAux (keys : Keys) : Nat → Bytes → Bytes → SegLine
+  | _, [], lit => flushLit lit
+  | k + 1, _ :: r, lit => segLineAux keys k r lit
+  | 0, b :: r, lit =>
+    match keys.find? fun nk => !nk.2.isEmpty && nk.2.isPrefixOf (b :: r) with
+    | some nk => flushLit lit ++ (nk.1, []) :: segLineAux keys (nk.2.length - 1) r []
+    | none => segLineAux keys 0 r (lit ++ [b])
+
+def segmentText (keys : Keys) (text : Bytes) : List SegLine :=
+  (splitNl text).map fun l => segLineAux keys 0 l []
+
+/-- the key table of `jobScript` (compared with the regenerated `Gen.jobScriptKeys`) -/
+def paramKeys : Keys := paramSpec.map fun p => (p.1, varKey p.1)
+
+/-- the parameters whose value can be empty: the raw ones (the job name never is, but that is
+not needed) -/
+def maybeEmptyParams : List String := ["JOB_NAME", "ACCOUNT", "RESOURCES"]
 
 end Martian.JobTemplate
